@@ -11,6 +11,7 @@ import (
 	"dawgsverif/areas/digrapharea"
 	"dawgsverif/areas/dumparea"
 	"dawgsverif/areas/entityarea"
+	"dawgsverif/areas/frontarea"
 	"dawgsverif/areas/idsetarea"
 	"dawgsverif/areas/reacharea"
 	"dawgsverif/areas/travarea"
@@ -22,10 +23,11 @@ var areas = map[string]map[string]cmd{
 	"cache":   {"replay": cachearea.Replay, "conc": cachearea.Conc},
 	"entity":  {"replay": entityarea.Replay},
 	"digraph": {"replay": digrapharea.Replay},
-	"dump":    {"child": dumparea.Child, "explore": dumparea.Explore},
+	"dump":    {"child": dumparea.Child, "explore": dumparea.Explore, "roundtrip": dumparea.Roundtrip, "attack": dumparea.Attack},
 	"trav":    {"run": travarea.Run, "pipe": travarea.Pipe},
+	"front":   {"gate": frontarea.Gate},
 	"reach":   {"replay": reacharea.Replay},
-	"idset":   {"replay": idsetarea.Replay, "conc": idsetarea.Conc, "abba": idsetarea.Abba, "toggle": idsetarea.Toggle},
+	"idset":   {"replay": idsetarea.Replay, "conc": idsetarea.Conc, "abba": idsetarea.Abba, "toggle": idsetarea.Toggle, "family": idsetarea.Family},
 }
 
 func main() {
